@@ -28,3 +28,110 @@ shim_timer_register(int (*f)(void *), void * c, long sec, long usec)
 	return (events_timer_register(f, c, &tv));
 }
 void shim_timer_cancel(void * c) { events_timer_cancel(c); }
+
+/*
+ * A transport behind the "SSL" hooks of the buffered reader and writer: the
+ * library reaches TLS only through four function pointers and an opaque
+ * context, so a pass-through transport (context = descriptor number, cookie =
+ * wrapper around the network_read/network_write cookie) exercises exactly the
+ * branches an SSL connection takes, over the same simulated kernel.
+ */
+#include "netbuf_ssl_internal.h"
+#include "network.h"
+
+struct network_ssl_ctx {
+	int fd;
+};
+struct pt_cookie {
+	uint64_t magic;
+	void * inner;
+	int (* cb)(void *, ssize_t);
+	void * cookie;
+	int is_write;
+};
+#define PT_MAGIC 0x70617373746872ULL
+
+static int
+pt_done(void * c, ssize_t n)
+{
+	struct pt_cookie * P = c;
+	int (* cb)(void *, ssize_t) = P->cb;
+	void * cookie = P->cookie;
+
+	if (P->magic != PT_MAGIC)
+		abort();
+	P->magic = 0;
+	free(P);
+	return (cb(cookie, n));
+}
+
+static void *
+pt_start(struct network_ssl_ctx * ctx, uint8_t * rbuf, const uint8_t * wbuf, size_t buflen, size_t minlen,
+    int (* cb)(void *, ssize_t), void * cookie)
+{
+	struct pt_cookie * P;
+
+	if ((P = malloc(sizeof(struct pt_cookie))) == NULL)
+		return (NULL);
+	P->magic = PT_MAGIC;
+	P->cb = cb;
+	P->cookie = cookie;
+	P->is_write = (wbuf != NULL);
+	if (wbuf != NULL)
+		P->inner = network_write(ctx->fd, wbuf, buflen, minlen, pt_done, P);
+	else
+		P->inner = network_read(ctx->fd, rbuf, buflen, minlen, pt_done, P);
+	if (P->inner == NULL) {
+		free(P);
+		return (NULL);
+	}
+	return (P);
+}
+
+static void *
+pt_read(struct network_ssl_ctx * ctx, uint8_t * buf, size_t buflen, size_t minlen, int (* cb)(void *, ssize_t), void * cookie)
+{
+
+	return (pt_start(ctx, buf, NULL, buflen, minlen, cb, cookie));
+}
+
+static void *
+pt_write(struct network_ssl_ctx * ctx, const uint8_t * buf, size_t buflen, size_t minlen, int (* cb)(void *, ssize_t), void * cookie)
+{
+
+	return (pt_start(ctx, NULL, buf, buflen, minlen, cb, cookie));
+}
+
+static void
+pt_cancel(void * c)
+{
+	struct pt_cookie * P = c;
+
+	/* Handing us anything but one of our cookies is a bug of the caller. */
+	if (P->magic != PT_MAGIC)
+		abort();
+	if (P->is_write)
+		network_write_cancel(P->inner);
+	else
+		network_read_cancel(P->inner);
+	P->magic = 0;
+	free(P);
+}
+
+static struct network_ssl_ctx pt_ctx[4];
+static int pt_n;
+
+static struct network_ssl_ctx *
+pt_ctx_for(int s)
+{
+
+	netbuf_read_ssl_func = pt_read;
+	netbuf_read_ssl_cancel_func = pt_cancel;
+	netbuf_write_ssl_func = pt_write;
+	netbuf_write_ssl_cancel_func = pt_cancel;
+	pt_ctx[pt_n & 3].fd = s;
+	return (&pt_ctx[pt_n++ & 3]);
+}
+
+void * shim_nr_init_hooked(int s) { return (netbuf_read_init2(-1, pt_ctx_for(s))); }
+void * shim_nw_init_hooked(int s, int (*failcb)(void *), void * cookie) { return (netbuf_write_init2(-1, pt_ctx_for(s), failcb, cookie)); }
